@@ -9,7 +9,7 @@ From Coq Require Import String.
 From Coq Require Import NArith List Bool.
 From RecordUpdate Require Import RecordSet.
 From V Require Import Base.U64 Base.Outcome Base.Sha256 Ssz.SszCore Beacon.Config Beacon.Schemas Beacon.State
-  Beacon.Spec.Helpers Beacon.Spec.Epoch Beacon.Spec.Block Beacon.Run Beacon.Impl.BlockOps Beacon.Refine.BlockFixtures
+  Beacon.Spec.Helpers Beacon.Spec.Epoch Beacon.Spec.Block Beacon.Run Beacon.Impl.BlockOps Beacon.Impl.Block2Ops Beacon.Refine.BlockFixtures
   Beacon.Refine.BlockSyncRefine.
 Import ListNotations RecordSetNotations.
 Local Open Scope string_scope.
@@ -65,8 +65,15 @@ Inductive bcase :=
             (go : gores (list N * N))
 (* common.ProcessHeader: block (slot, proposer, parent = latest header root?), observed latest header (slot, proposer) *)
 | CHeader (ov : list (string * N)) (slot_ : N) (vals : list cval) (latest_slot : N) (b_slot b_proposer : N) (parent_ok : bool)
-          (expected : N) (go : gores (N * N)).
+          (expected : N) (go : gores (N * N))
+(* phase0.ProcessEth1Vote: votes and the new vote as small ids, observed (number of votes, deposit_count of state.eth1_data) *)
+| CEth1 (ov : list (string * N)) (votes : list N) (d : N) (go : gores (N * N)).
 
+Definition eth1_of_id (i : N) : Eth1Data := mkEth1Data (repeat i 32) i (repeat i 32).
+Definition eth1_state (votes : list N) : BeaconState :=
+  (mk_state 9 [] []) <| eth1_data := eth1_of_id 200 |> <| eth1_data_votes := map eth1_of_id votes |>.
+Definition eth1_body (d : N) : value := VCont [VBytes []; eth1_to_value (eth1_of_id d)].
+Definition eth1_obs (s : BeaconState) : N * N := (N.of_nat (length (eth1_data_votes s)), e_deposit_count (eth1_data s)).
 Definition fork_of (n : N) : fork :=
   if n =? 0 then Phase0 else if n =? 1 then Altair else if n =? 2 then Bellatrix else if n =? 3 then Capella else Deneb.
 Definition mk_epc (ce active : N) (proposer : option N) (total sqrt : N) (sidx : list N) : BlockEpc :=
@@ -138,6 +145,9 @@ Definition impl_ok (c : bcase) : bool :=
       agree (pair_eqb N.eqb N.eqb)
         (map_outcome (fun s' => (h_slot (latest_block_header s'), h_proposer_index (latest_block_header s')))
            (process_header_impl E Altair epc st blk)) go
+  | CEth1 ov votes d go =>
+      let E := run_env ov 0 in
+      agree (pair_eqb N.eqb N.eqb) (map_outcome eth1_obs (process_eth1_vote_impl E Altair (eth1_state votes) (eth1_body d))) go
   end.
 
 (* Go against the Spec function itself; `true` outside the documented domain *)
@@ -199,6 +209,12 @@ Definition spec_ok (c : bcase) : bool :=
       then agree (pair_eqb N.eqb N.eqb)
              (of_spec (fun s' => (h_slot (latest_block_header s'), h_proposer_index (latest_block_header s')))
                 (process_block_header E Altair st blk)) go
+      else true
+  | CEth1 ov votes d go =>
+      let E := run_env ov 0 in
+      (* domain: room in the votes list (one vote per slot of the period) *)
+      if N.of_nat (length votes) <? EPOCHS_PER_ETH1_VOTING_PERIOD (cfg E) * SLOTS_PER_EPOCH (cfg E)
+      then agree (pair_eqb N.eqb N.eqb) (Ok (eth1_obs (process_eth1_data E Altair (eth1_state votes) (eth1_body d)))) go
       else true
   end.
 
